@@ -108,38 +108,16 @@ func decodeBackInto(b []byte, text bool, dirtyIdx int) (*ref.Frame, error) {
 	}
 	if m, ok := q.MACPayload.(*lorawan.MACPayload); ok {
 		up := ref.IsUplinkMType(g.MType)
-		if err := cmdsMatch(up, m.FHDR.FOpts, g.FOpts, "FOpts after DecodeFOptsToMACCommands"); err != nil {
+		if err := gen.CmdsMatch(up, m.FHDR.FOpts, g.FOpts, "FOpts after DecodeFOptsToMACCommands"); err != nil {
 			return nil, err
 		}
 		if m.FPort != nil && *m.FPort == 0 && len(g.FRM) > 0 {
-			if err := cmdsMatch(up, m.FRMPayload, g.FRM, "FRMPayload (port 0) after DecodeFRMPayloadToMACCommands"); err != nil {
+			if err := gen.CmdsMatch(up, m.FRMPayload, g.FRM, "FRMPayload (port 0) after DecodeFRMPayloadToMACCommands"); err != nil {
 				return nil, err
 			}
 		}
 	}
 	return g, nil
-}
-
-// cmdsMatch: after a successful command decode the field holds the MAC commands its bytes carry, nothing else.
-func cmdsMatch(up bool, items []lorawan.Payload, raw []byte, what string) error {
-	want, err := ref.DecodeCmds(up, raw, nil)
-	if err != nil {
-		return nil // not a well-formed command stream: nothing to compare
-	}
-	if len(items) != len(want) {
-		return fmt.Errorf("%s holds %d items, the bytes %x carry %d commands", what, len(items), raw, len(want))
-	}
-	for i, it := range items {
-		mc, ok := it.(*lorawan.MACCommand)
-		if !ok {
-			return fmt.Errorf("%s: item %d is a %T although the decode reported success (bytes %x)", what, i, it, raw)
-		}
-		got := gen.ModelCmd(up, mc)
-		if got.CID != want[i].CID || !got.Vals.Equal(want[i].Vals) && !(len(got.Vals) == 0 && len(want[i].Vals) == 0) || !bytes.Equal(got.Raw, want[i].Raw) {
-			return fmt.Errorf("%s: command %d is %+v, the bytes %x carry %+v", what, i, got, raw, want[i])
-		}
-	}
-	return nil
 }
 
 func sameFrame(f, g *ref.Frame) string {
